@@ -43,6 +43,7 @@ func fullProfile0(t *tape.Tape, flagCount uint32) app.Profile {
 		MultiRowTpl: true, MaxRows: 10, EmptyRows: t.Chance(1, 2), CatchShape: -1,
 		ExtLang: t.Chance(1, 4),
 		Unicode: t.Chance(1, 3),
+		ManySyms: t.Chance(1, 25),
 	}
 }
 
